@@ -616,4 +616,6 @@ Proof.
   - pose proof (msgvalfmt_nf f). destruct (msgvalfmt_typeid f); try exact Logic.I; congruence.
   - unfold sweep. cbn [out_ok]. apply Forall_forall. intros x Hx.
     apply in_map_iff in Hx. destruct Hx as (id & <- & _). apply type_traits_nf, I.
+  - unfold wrap_traits. pose proof (type_traits_nf r (Z.to_N (t mod 2 ^ Z.of_N g_WordBits)) I).
+    destruct (type_traits r _); simpl; try exact Logic.I; congruence.
 Qed.
